@@ -521,9 +521,10 @@ def install(ex):
             ex_['eps'] = float(err.eps)
             log_opt(t, options=meth, **{'<bc>': bc})
         elif t == 'spatial_inversion':
+            rec = 'recorded' if (bc == 'segment' and psi.segment_boundaries[0] is not None) else 'none'
             ret = psi.spatial_inversion()
             ex_['returns_self'] = ret is psi
-            log_opt(t, **{'<bc>': bc})
+            log_opt(t, **{'<bc>': bc, '<recorded boundaries of a segment>': rec})
         elif t == 'enlarge_mps_unit_cell':
             psi.enlarge_mps_unit_cell(**kwargs(op, ['factor']))
             log_opt(t, factor=present(op, 'factor'), **{'<bc>': bc})
